@@ -114,6 +114,10 @@ def cases(tier, seed):
     nrand = 150 if tier == "quick" else 60000
     for j in range(nrand):
         out.append({"kind": "random", "s": int(rng.integers(1 << 30)), "cell": [None, "ortho", "tri"][j % 3]})
+    # thin, strongly sheared cells (a layered or chain compound in its primitive cell): hardly wider than one bond, tilts of 0.3 .. 0.5
+    # of an edge. There the nearest image in space need not be the image nearest in fractional coordinates
+    for j in range(24 if tier == "quick" else 3000):
+        out.append({"kind": "thin_sheared", "s": int(rng.integers(1 << 30))})
     # one site listed on two opposite faces of a triclinic cell (fractional 0 and 1): the two entries coincide through a periodic image
     for j in range(80 if tier == "quick" else 6000):
         out.append({"kind": "random", "s": int(rng.integers(1 << 30)), "cell": "tri", "coincide": True})
@@ -265,6 +269,83 @@ def run_case(case, ctx):
         if e1 in ("Zr", "O"):
             ctx.sample({"first_element": e1, "items": case["items"][:6], "note": "each item: second element, side of the cutoff (-1 below, +1 above), placement"})
         return
+    if case["kind"] == "thin_sheared":
+        els_all = list(radii)
+        heavy = ["Zr", "Hf", "Cs", "Ba", "La", "Pb", "Sr", "K", "Rb", "Th", "U", "Y"]
+        done = 0
+        for _pair in range(14):
+            e1 = heavy[int(rng.integers(len(heavy)))] if rng.integers(3) else els_all[int(rng.integers(len(els_all)))]
+            e2 = heavy[int(rng.integers(len(heavy)))] if rng.integers(3) else els_all[int(rng.integers(len(els_all)))]
+            boundary = _pair % 2 == 1
+            if boundary and rng.integers(2):
+                e2 = e1
+            if e1 not in radii or e2 not in radii:
+                continue
+            c = cutoff(e1, e2, radii, nonmetals)
+            L = max(c, cutoff(e1, e1, radii, nonmetals), cutoff(e2, e2, radii, nonmetals))      # the longest bond any two of the atoms present could form
+            cell, thin = None, None
+            for _ in range(400):
+                if not boundary:
+                    a, b, cz = c * rng.uniform(1.08, 2.4, 3)
+                    t = rng.uniform(0.3, 0.5, 3) * rng.choice([-1.0, 1.0], 3)
+                else:
+                    # every edge longer than two of the longest possible bonds, the spacing of one pair of faces (shortened by the
+                    # shear; gamma of 60 / 120 degrees with a < b is such a cell) below two cutoffs: "wide enough for the nearest
+                    # image alone" holds by the edge lengths - or by the rows instead of the columns of the inverse cell - and
+                    # not by the face spacings
+                    a, b, cz = L * rng.uniform(2.05, 3.3, 3)
+                    t = rng.uniform(0.3, 1.0, 3) * rng.choice([-1.0, 1.0], 3)
+                cand = np.array([[a, 0, 0], [t[0] * a, b, 0], [t[1] * a, t[2] * b, cz]])
+                if rng.integers(3) == 0:
+                    cand = cand.dot(G.random_rotation(rng).T)
+                ci = np.linalg.inv(cand)
+                w = 1.0 / np.linalg.norm(ci, axis=0)          # spacing of the faces (columns of the inverse are the face normals / spacing)
+                if w.min() <= 1.05 * c:
+                    continue
+                if boundary:
+                    est = [np.linalg.norm(cand, axis=1).min(), (1.0 / np.linalg.norm(ci, axis=1)).min()][_pair // 2 % 2]
+                    if not (w.min() < 1.98 * c and est > 2.02 * L):
+                        continue
+                cell, thin = cand, int(np.argmin(w))
+                break
+            if cell is None:
+                continue
+            inv = np.linalg.inv(cell)
+            sign = -1 if (boundary or rng.integers(3)) else 1
+            margin = 1e-3
+            d = c + sign * margin
+            u = None
+            if boundary:
+                # across the thin direction: more than half a face spacing long, so the image one cell vector back is nearer in
+                # fractional coordinates and farther in space
+                nk = inv[:, thin] / np.linalg.norm(inv[:, thin])
+                u = G.rotation_about(rng.normal(size=3), np.radians(rng.uniform(0, 8))).dot(nk) * (1 if rng.integers(2) else -1)
+            else:
+                for _ in range(400):
+                    v = rng.normal(size=3)
+                    v /= np.linalg.norm(v)
+                    fu = np.abs((d * v).dot(inv))
+                    if ((fu > 0.4) & (fu < 0.62)).any():
+                        u = v
+                        break
+            if u is None:
+                continue
+            p1 = rng.uniform(0, 1, 3).dot(cell)
+            pos = np.array([p1, G.wrap(cell, (p1 + d * u)[None, :])[0]])
+            r = check([e1, e2], pos, cell, ctx, st, radii, nonmetals, "pair %s-%s at cutoff%+.0e in a thin sheared cell" % (e1, e2, sign * margin),
+                      metamorphic_rng=rng if rng.integers(4) == 0 else None)
+            if r is None:
+                continue
+            done += 1
+            st.count("pairs_in_thin_sheared_cells")
+            if boundary:
+                st.count("pairs_in_cells_whose_edges_exceed_two_bonds_and_whose_face_spacing_does_not")
+            fr = (pos[1] - pos[0]).dot(inv)
+            if r[0] and np.linalg.norm((fr - np.round(fr)).dot(cell)) >= c:
+                st.count("bonds_whose_nearest_image_is_not_the_fractionally_nearest_one")
+        if done:
+            ctx.nontrivial(["thin_sheared", case["s"]])
+        return
     kind = case["cell"]
     n = int(rng.integers(2, 15))
     side = None
@@ -331,6 +412,12 @@ def requirements(stats, tier):
         need.append("too few image-only bonds in random structures")
     if stats.get("detections_after_inplace_cell_edit_with_other_bonding") < (10 if tier == "quick" else 1000):
         need.append("detections on an object whose cell was edited in place, with another expected bonding than before: %d" % stats.get("detections_after_inplace_cell_edit_with_other_bonding"))
+    if stats.get("pairs_in_thin_sheared_cells") < (200 if tier == "quick" else 25000):
+        need.append("pairs in thin sheared cells: %d" % stats.get("pairs_in_thin_sheared_cells"))
+    if stats.get("pairs_in_cells_whose_edges_exceed_two_bonds_and_whose_face_spacing_does_not") < (60 if tier == "quick" else 8000):
+        need.append("pairs in cells whose edges exceed two bonds and whose face spacing does not: %d" % stats.get("pairs_in_cells_whose_edges_exceed_two_bonds_and_whose_face_spacing_does_not"))
+    if stats.get("bonds_whose_nearest_image_is_not_the_fractionally_nearest_one") < (10 if tier == "quick" else 1000):
+        need.append("bonds whose nearest image is not the fractionally nearest one: %d" % stats.get("bonds_whose_nearest_image_is_not_the_fractionally_nearest_one"))
     if stats.get("structures_with_two_atoms_at_distance_zero") < 10:
         need.append("structures with two atoms at distance exactly zero: %d" % stats.get("structures_with_two_atoms_at_distance_zero"))
     if stats.get("integer_cells") < 10:
